@@ -51,9 +51,9 @@ def budgets(tier):
 
 
 @st.composite
-def bundle_specs(draw):
+def bundle_specs(draw, bases=(0, 1, 2, 3), dests=None):
     ''' [src_idx, time, seq, frag(None|[off,total]), dest_idx, flags-extra] '''
-    base = draw(st.integers(0, 3))
+    base = draw(st.sampled_from(bases))
     pool = [(0, 1000, 0), (0, 1000, 1), (1, 1000, 0), (2, 77, 5)]
     src, tval, seq = pool[base]
     frag = None
@@ -78,15 +78,26 @@ def bundle_specs(draw):
     # a copy damaged in transit (payload octet changed, CRC left as it was): dropped without trace, so a later intact
     # copy of the same identity is still new
     damaged = draw(st.sampled_from([0, 0, 0, 0, 1]))
-    return [src, tval, seq, frag, draw(st.integers(0, len(DESTS) - 1)), rpt, damaged]
+    dest = draw(st.integers(0, len(DESTS) - 1) if dests is None else st.sampled_from(dests))
+    return [src, tval, seq, frag, dest, rpt, damaged]
+
+
+@st.composite
+def focused_histories(draw):
+    ''' Histories around one identity and few destinations: its fragments (same offset with different lengths, other
+    offsets), repeats and one-component look-alikes meet each other much more often than in the free histories. '''
+    base = draw(st.integers(0, 3))
+    dests = draw(st.lists(st.integers(0, len(DESTS) - 1), min_size=1, max_size=2, unique=True))
+    return draw(st.lists(bundle_specs(bases=(base,), dests=dests), min_size=3, max_size=10))
 
 
 def strategy(tier):
     routes = st.lists(st.tuples(st.integers(0, len(PATTERNS) - 1), st.sampled_from(ACTIONS)).map(list), max_size=5)
     single = st.fixed_dictionaries({'routes': routes, 'bundles': st.lists(bundle_specs(), min_size=3, max_size=14)})
+    focused = st.fixed_dictionaries({'routes': routes, 'bundles': focused_histories()})
     from vlib import stack_world as sw
     stack = sw.cases()
-    return st.one_of(single, single, single, stack)
+    return st.one_of(single, single, focused, stack)
 
 
 def pinned_cases():
@@ -94,6 +105,9 @@ def pinned_cases():
                                    'bundles': [[0, 1000, 0, None, 0, 1], [0, 1000, 0, None, 0, 1], [0, 1000, 1, None, 1, 0],
                                                [3, 1000, 0, None, 0, 0], [1, 1000, 0, None, 3, 0], [0, 1001, 0, None, 5, 0],
                                                [0, 1000, 0, [0, 10], 2, 0], [0, 1000, 0, [5, 10], 2, 0]]}
+    yield 'same-offset-other-length', {'routes': [[0, 'deliver'], [2, 'forward'], [3, 'delete']],
+                                       'bundles': [[0, 1000, 0, [0, 10], 2, 0, 0], [0, 1000, 0, [0, 10, 5], 2, 0, 0],
+                                                   [0, 1000, 0, [0, 10], 2, 0, 0], [0, 1000, 0, [0, 10, 5], 3, 1, 0]]}
     yield 'stack-reconnect', {'kind': 'stack', 'keepalive': 0, 'ops': [['send', 1, 3, True, 0], ['cut', 2], ['send', 1, 3, True, 0],
                                                                      ['close', 3], ['send', 1, 3, True, 1]]}
     yield 'damaged-then-intact', {'routes': [[2, 'deliver']], 'bundles': [[0, 1000, 0, None, 0, 1, 1], [0, 1000, 0, None, 0, 1, 0],
